@@ -329,6 +329,15 @@ class Gen(object):
 
     def s_chained(self, ind, scope, depth, in_loop):
         a, b = self.pick_var(scope), self.pick_var(scope)
+        if self.rng.random() < 0.2:
+            # targets are bound from left to right: a later subscript target reads the binding just made
+            if self.rng.random() < 0.5:
+                self.emit(ind, '%s = v()[%s] = %s' % (a, a, self.expr(scope)))
+            else:
+                self.emit(ind, '%s, v()[%s] = %s, %s' % (a, a, self.expr(scope), self.expr(scope)))
+            scope.add(a)
+            self.features.add('target_reads_earlier_target')
+            return
         if a == b:
             return self.s_assign(ind, scope, depth, in_loop)
         self.emit(ind, '%s = %s = %s' % (a, b, self.expr(scope)))
@@ -351,6 +360,17 @@ class Gen(object):
         scope.add(n)
         self.features.add('walrus')
 
+    def wcomp(self, scope, avoid=(), inner=None):
+        """a comprehension binding a name of the enclosing scope by an assignment expression, or None when that
+        is not possible here (class bodies, decision budget)"""
+        if not self.c01 or scope.kind == 'class' or not self.dec_ok():
+            return None
+        self.decisions += 1
+        wn = self.rng.choice([n for n in VARS if n not in avoid] or VARS)
+        e = '[(%s := v(%s)) for cz in it()]' % (wn, self.readable(inner or scope, avoid))
+        scope.add(wn, definite=False)
+        return e
+
     def s_comp(self, ind, scope, depth, in_loop):
         if not self.dec_ok():
             return self.s_assign(ind, scope, depth, in_loop)
@@ -372,14 +392,29 @@ class Gen(object):
             self.features.add('walrus_in_comp_condition')
         elif rng.random() < 0.4 and self.dec_ok():
             self.decisions += 1
-            gens += ' if q(%s)' % self.readable(inner, avoid)
+            w = self.wcomp(scope, avoid, inner) if rng.random() < 0.15 else None
+            if w:
+                gens += ' if q(%s, %s)' % (self.readable(inner, avoid), w)
+                self.features.add('walrus_comprehension_in_comp_condition')
+            else:
+                gens += ' if q(%s)' % self.readable(inner, avoid)
         if two:
             self.decisions += 1
             cv2 = [c for c in COMPVARS if c != cv][0]
-            gens += ' for %s in it(%s)' % (cv2, self.readable(inner, avoid))
+            w = self.wcomp(scope, avoid, inner) if rng.random() < 0.2 else None
+            if w:
+                gens += ' for %s in it(%s, %s)' % (cv2, self.readable(inner, avoid), w)
+                self.features.add('walrus_comprehension_in_comp_iterable')
+            else:
+                gens += ' for %s in it(%s)' % (cv2, self.readable(inner, avoid))
             inner.names.append(cv2)
             inner.definite.add(cv2)
         elt = 'v(%s, %s)' % (self.readable(inner, avoid), self.readable(inner, avoid))
+        if rng.random() < (0.3 if scope.kind == 'class' else 0.08):
+            # a lambda in the element closes over the comprehension's variable (also in a class body, where the
+            # comprehension is the only function-like scope around it)
+            elt = 'call(lambda: v(%s))' % cv
+            self.features.add('lambda_reads_comprehension_variable' + ('_in_class' if scope.kind == 'class' else ''))
         if self.c01 and rng.random() < 0.12 and self.dec_ok():
             self.decisions += 1
             wn2 = rng.choice([n for n in VARS if n != tgt] or VARS)
@@ -780,15 +815,22 @@ class Gen(object):
         rng = self.rng
         name = rng.choice(CLASSES) if rng.random() < 0.8 else rng.choice(VARS)
         avoid = (name,) if not self.c01 else ()
+        def hdr(what):
+            # a class header expression may hold a comprehension that binds a name of the enclosing scope
+            w = self.wcomp(scope, avoid) if rng.random() < 0.15 else None
+            if w:
+                self.features.add('walrus_comprehension_in_class_' + what)
+                return '%s, %s' % (self.readable(scope, avoid), w)
+            return self.readable(scope, avoid)
         if rng.random() < 0.3:
-            self.emit(ind, '@dd(%s)' % self.readable(scope, avoid))
+            self.emit(ind, '@dd(%s)' % hdr('decorator'))
             self.features.add('class_decorator')
         bases = []
         if rng.random() < 0.5:
-            bases.append('kb(%s)' % self.readable(scope, avoid))
+            bases.append('kb(%s)' % hdr('base'))
             self.features.add('class_base')
         if rng.random() < 0.3:
-            bases.append('metaclass=km(%s)' % self.readable(scope, avoid))
+            bases.append('metaclass=km(%s)' % hdr('keyword'))
             self.features.add('class_keyword')
         self.emit(ind, 'class %s%s:' % (name, '(%s)' % ', '.join(bases) if bases else ''))
         cs = Scope('class', scope, name)
